@@ -84,6 +84,10 @@ pub struct Plan {
     /// "symlink" (a symbolic link to the file) | "dir-slash" (directory with a trailing slash)
     #[serde(default)]
     pub dest_form: String,
+    /// a directory destination comes into being only AFTER the builder is complete (output mode
+    /// and sources set), right before `compile()`: what counts is the file system at delivery
+    #[serde(default)]
+    pub dest_late: bool,
     pub sim: SimCfg,
     pub schedule: Option<Vec<u8>>,
     /// "fault-free" | "sweep" | "multi"
@@ -435,14 +439,14 @@ impl Scenario for C20Lib {
             }
             _ => DestState::NotApplicable,
         };
-        let bp = BuilderPath { output_first: w.chance(1, 2), batch_paths: w.chance(1, 2), swap_backend: w.chance(1, 5) };
+        let bp = BuilderPath { output_first: w.chance(1, 2), batch_paths: w.chance(1, 2), swap_backend: w.chance(1, 5), swap_late: w.chance(1, 2) };
         let mut simcfg = SimCfg::simple(root.fork("schedule").next_u64());
         simcfg.entropy = root.fork("hashkeys").next_u64();
         simcfg.stack_kb = *root.fork("layout").pick(&[2048usize, 8192]);
         simcfg.capture_stdout = out == OutKind::Stdout;
         let old_longer = w.chance(1, 2);
         let dest_name = w.pick(&["", "", "bindings", "out.d", "asn1-bindings.generated", "Makefile"]).to_string();
-        let p = Plan { seed, set, order, malform, backend, delivery, bp, out, dest, old_longer, dest_name, dest_form: w.pick(&["abs", "abs", "abs", "rel", "symlink", "dir-slash"]).to_string(), sim: simcfg, schedule: None, phase: "fault-free".into() };
+        let p = Plan { seed, set, order, malform, backend, delivery, bp, out, dest, old_longer, dest_name, dest_form: w.pick(&["abs", "abs", "abs", "rel", "symlink", "dir-slash"]).to_string(), dest_late: w.chance(1, 3), sim: simcfg, schedule: None, phase: "fault-free".into() };
         serde_json::to_value(&p).unwrap()
     }
 
@@ -480,9 +484,32 @@ impl Scenario for C20Lib {
         let outsel = dest.out.clone();
         let bp = p.bp.clone();
         let be = backend.clone();
+        // a directory destination that appears late: taken away now, put back by `between`
+        let late_dir: Option<(String, Option<(String, Vec<u8>)>)> = match (&p.out, p.dest_late, &dest.out) {
+            (OutKind::Dir, true, OutSel::File(dir)) => {
+                let dir = dir.trim_end_matches('/').to_string();
+                let dir_abs = if dir.starts_with('/') { dir.clone() } else { format!("{root}/out/{dir}") };
+                let old = dest.old_path.as_ref().map(|f| (f.clone(), dest.old_content.clone()));
+                let _ = std::fs::remove_dir_all(&dir_abs);
+                out.count("probe.directory_destination_created_after_the_builder_was_complete", 1);
+                Some((dir_abs, old))
+            }
+            _ => None,
+        };
         let body: sim::Body<CompileOut> = Box::new(move || {
             sim::op_begin("compile");
-            let r = sut::compile(&be, &srcs, &outsel, &bp);
+            let r = sut::compile_between(&be, &srcs, &outsel, &bp, &|| {
+                if let Some((dir, old)) = &late_dir {
+                    // harness I/O: outside the seam (not a simulated call, no yield point)
+                    let tid = crate::sched::current_tid();
+                    shim::register_thread(-1);
+                    std::fs::create_dir_all(dir).unwrap();
+                    if let Some((f, bytes)) = old {
+                        std::fs::write(f, bytes).unwrap();
+                    }
+                    shim::register_thread(tid);
+                }
+            });
             sim::op_end("compile");
             r
         });
